@@ -157,33 +157,35 @@ def run(ctx):
         lam = v[0][1] == 0 and v[0][2] == 0 and v[1][2] == 0 and v[0][0] > 0 and v[1][1] > 0 and v[2][2] > 0
         o = [int(x) * 2 for x in rng.integers(-20, 21, 3)] if rng.random() < .6 else [0, 0, 0]
         V = np.array(v)
-        base = {'v': v, 'o': o, 'q': Q, 'tag': 'cell%d' % ci}
+        # the same cell expressed in a much smaller / larger length unit (power of two: every float operation scales exactly)
+        k = [1.0, 2.0 ** -32, 2.0 ** 24][ci % 3]
+        base = {'v': v, 'o': o, 'q': Q, 'tag': 'cell%d' % ci, 'unit': k}
         detn = int(round(np.linalg.det(V.astype(float))))
         try:
             how = ci % 4
             if how == 0 or not lam:
-                box = am.Box(vects=V / Q, origin=np.array(o) / Q)
+                box = am.Box(vects=V / Q * k, origin=np.array(o) / Q * k)
             elif how == 1:
-                box = am.Box(avect=(V[0] / Q).tolist(), bvect=V[1] / Q, cvect=V[2] / Q, origin=(np.array(o) / Q).tolist())
+                box = am.Box(avect=(V[0] / Q * k).tolist(), bvect=V[1] / Q * k, cvect=V[2] / Q * k, origin=(np.array(o) / Q * k).tolist())
             elif how == 2:
-                box = am.Box(lx=V[0, 0] / Q, ly=V[1, 1] / Q, lz=V[2, 2] / Q, xy=V[1, 0] / Q, xz=V[2, 0] / Q, yz=V[2, 1] / Q, origin=np.array(o) / Q)
+                box = am.Box(lx=V[0, 0] / Q * k, ly=V[1, 1] / Q * k, lz=V[2, 2] / Q * k, xy=V[1, 0] / Q * k, xz=V[2, 0] / Q * k, yz=V[2, 1] / Q * k, origin=np.array(o) / Q * k)
             else:
-                box = am.Box(xlo=o[0] / Q, xhi=(o[0] + V[0, 0]) / Q, ylo=o[1] / Q, yhi=(o[1] + V[1, 1]) / Q, zlo=o[2] / Q,
-                             zhi=(o[2] + V[2, 2]) / Q, xy=V[1, 0] / Q, xz=V[2, 0] / Q, yz=V[2, 1] / Q)
+                box = am.Box(xlo=o[0] / Q * k, xhi=(o[0] + V[0, 0]) / Q * k, ylo=o[1] / Q * k, yhi=(o[1] + V[1, 1]) / Q * k, zlo=o[2] / Q * k,
+                             zhi=(o[2] + V[2, 2]) / Q * k, xy=V[1, 0] / Q * k, xz=V[2, 0] / Q * k, yz=V[2, 1] / Q * k)
             # metric: lengths, angles (through the Gram matrix), volume
-            a, b, c = box.a, box.b, box.c
+            a, b, c = box.a / k, box.b / k, box.c / k
             ca, cb, cg = (np.cos(np.radians(x)) for x in (box.alpha, box.beta, box.gamma))
             gram, ok1 = to_int([a * a, b * b, c * c, b * c * ca, a * c * cb, a * b * cg], Q * Q, tol=1e-9)
-            vol, ok2 = to_int(box.volume, Q ** 3, tol=1e-9)
+            vol, ok2 = to_int(box.volume / k ** 3, Q ** 3, tol=1e-9)
             recs.append(dict(base, ev='metric', gram=gram, vol=vol, ongrid=ok1 and ok2))
             # reciprocal
-            rn, ok = to_int(box.reciprocal_vects * detn / Q, 1, tol=1e-7)
+            rn, ok = to_int(box.reciprocal_vects * k * detn / Q, 1, tol=1e-7)
             recs.append(dict(base, ev='recip', rn=rn, ongrid=ok))
             # LAMMPS getters
             try:
-                l = [box.lx, box.ly, box.lz, box.xy, box.xz, box.yz]
-                lo = [box.xlo, box.ylo, box.zlo]
-                hi = [box.xhi, box.yhi, box.zhi]
+                l = [x / k for x in (box.lx, box.ly, box.lz, box.xy, box.xz, box.yz)]
+                lo = [x / k for x in (box.xlo, box.ylo, box.zlo)]
+                hi = [x / k for x in (box.xhi, box.yhi, box.zhi)]
                 recs.append(dict(base, ev='lammps', refused=False, l=to_int(l, Q)[0], lo=to_int(lo, Q)[0], hi=to_int(hi, Q)[0]))
             except AssertionError:
                 recs.append(dict(base, ev='lammps', refused=True, l=[0] * 6, lo=[0] * 3, hi=[0] * 3))
@@ -200,9 +202,9 @@ def run(ctx):
                     b2 = am.Box(lx=box.lx, ly=box.ly, lz=box.lz, xy=box.xy, xz=box.xz, yz=box.yz, origin=box.origin)
                 else:
                     b2 = am.Box(xlo=box.xlo, xhi=box.xhi, ylo=box.ylo, yhi=box.yhi, zlo=box.zlo, zhi=box.zhi, xy=box.xy, xz=box.xz, yz=box.yz)
-                V2 = b2.vects * Q
+                V2 = b2.vects * Q / k
                 m = np.abs(V2).max()
-                o2, oko = to_int(b2.origin, Q, tol=2e-9)
+                o2, oko = to_int(b2.origin / k, Q, tol=2e-9)
                 if lam or via == 'vectors':
                     v2 = np.rint(V2)
                     ok = bool(np.all(np.abs(V2 - v2) <= 2e-9 * m)) and oko
@@ -225,7 +227,7 @@ def run(ctx):
                 S = rng.integers(-1, G + 2, (n, 3))
                 S[rng.random((n, 3)) < .3] = rng.choice([0, G])
                 Pn = np.array(o) + (S @ V) // G             # exact: cell entries are multiples of G
-                pts = (Pn / Q).reshape(shape + (3,))
+                pts = (Pn / Q * k).reshape(shape + (3,))
                 arg = pts.tolist() if (ci + len(shape)) % 2 else pts
                 rel = box.position_cartesian_to_relative(arg)
                 if np.shape(rel) != shape + (3,):
@@ -237,7 +239,7 @@ def run(ctx):
                 cart = box.position_relative_to_cartesian(sarg)
                 if np.shape(cart) != shape + (3,):
                     ctx.violation('relative->cartesian changes the leading shape', 'in %s out %s' % (shape, np.shape(cart)))
-                pn, ok = to_int(np.reshape(cart, (n, 3)), Q * G, tol=1e-9)
+                pn, ok = to_int(np.reshape(cart, (n, 3)) / k, Q * G, tol=1e-9)
                 recs.append(dict(base, ev='r2c', s=S.tolist(), g=G, pn=pn, ongrid=ok))
                 for incl in (True, False):
                     res = np.reshape(box.inside(arg, inclusive=incl), (n,))
